@@ -388,6 +388,9 @@ func (g *Gen) show(t *Type, e Expr) Expr {
 // ---- types used for parameters / results ---------------------------------------
 
 func (g *Gen) pickParamType() *Type {
+	if g.P.Name == "c02" {
+		return core.Pick(g.R, []*Type{TInt, TInt, TString, TString, TBool, TSlice(TInt), TSlice(TString), TTuple(TInt, TString)})
+	}
 	if g.R.Chance(0.35) {
 		if g.R.Bool() {
 			return TUnion(core.Pick(g.R, g.unions).Name)
@@ -1092,6 +1095,11 @@ func (g *Gen) funcValue(t *Type, sc *scope, d int, fx bool) Expr {
 					ok = false
 				}
 			}
+			for i := 0; i < k; i++ {
+				if f.Params[i].T.K == KFunc {
+					ok = false
+				}
+			}
 			if ok {
 				var args []Expr
 				for i := 0; i < k; i++ {
@@ -1113,6 +1121,11 @@ func (g *Gen) funcValue(t *Type, sc *scope, d int, fx bool) Expr {
 			for i, p := range ps {
 				if !f.Params[k+i].T.Eq(p) {
 					ok = false
+				}
+			}
+			for i := 0; i < k; i++ {
+				if f.Params[i].T.K == KFunc {
+					ok = false // supplying a function value here could recurse for ever
 				}
 			}
 			if !ok {
@@ -1174,7 +1187,11 @@ func (g *Gen) expr(t *Type, sc *scope, d int, fx bool) Expr {
 		return &UnitLit{}
 	}
 	if d <= 0 {
-		if g.R.Chance(0.6) {
+		vb := 0.6
+		if g.P.Name == "c02" {
+			vb = 0.92 // bodies that constrain their parameters
+		}
+		if g.R.Chance(vb) {
 			if e := g.useVar(t, sc); e != nil {
 				return e
 			}
@@ -1596,9 +1613,25 @@ func GenerateC02(r *core.Rand, pkg string, n int) (*Program, []*FuncDef) {
 	g.genGenericHelpers()
 	var subjects []*FuncDef
 	for i := 0; i < n; i++ {
-		before := len(g.funcs)
-		g.genFunc(true)
-		f := g.funcs[before]
+		var f *FuncDef
+		for try := 0; try < 25; try++ {
+			before := len(g.funcs)
+			nd := len(g.prog.Decls)
+			g.genFunc(true)
+			f = g.funcs[before]
+			// the body must mention every parameter, otherwise erasing is trivially generalising
+			all := true
+			for _, p := range f.Params {
+				if !FreeInBlock(f.Body, p.Name) {
+					all = false
+				}
+			}
+			if all || try == 24 {
+				break
+			}
+			g.funcs = g.funcs[:before]
+			g.prog.Decls = g.prog.Decls[:nd]
+		}
 		f.AnnotRet = false
 		subjects = append(subjects, f)
 	}
